@@ -17,7 +17,7 @@ from mc import c26_seeds as seeds
 ID = "C26"
 LEVEL = "fault_enumeration"
 EXHAUSTIVE = True
-CASE_TIMEOUT = 1500
+CASE_TIMEOUT = 3600
 RULE = (
     "work item = (seed program, transformation class, constructor variant); "
     "inside it every target (each statement-level node, one expression node "
@@ -408,7 +408,8 @@ class Runner:
         trans = core.make_transformation(self.trans, self.ctor, inst["root"])
         res = core.run_apply(trans, args, odesc, inject)
         res["hidden"] = False
-        if core.snapshot(inst["root"]) == inst["snap0"]:
+        snap1 = core.snapshot(inst["root"])
+        if snap1 == inst["snap0"]:
             return res, [], None, None
         inst["dirty"] = True
         if res["outcome"] != "TE":
@@ -423,11 +424,15 @@ class Runner:
                     ref.get("symtab", "")
                 after[f"kernel{idx}"] = kfp["code"] + "\n" + kfp["symtab"]
             if not core.changed_components(before, after):
-                # structure and kernels unchanged: the generated code decides
-                before["gen"] = self.sst.get_pristine_gen()
-                after["gen"] = self.sst.gen_text(inst)
-                if lazy and before["gen"] == after["gen"]:
+                # structure and kernels unchanged, only lazily materialised
+                # state differs: the generated code decides.  It is compared
+                # in the gen pass of this work item (this attempt is replayed
+                # there with all other refused ones); the tree stays in use
+                # with its new snapshot as the reference.
+                if lazy:
                     self._count("psy:lazily-materialised-state-only")
+                inst["snap0"] = snap1
+                inst["dirty"] = False
         changed = core.changed_components(before, after)
         if not changed:
             res["hidden"] = True
